@@ -9,16 +9,21 @@ import textwrap
 from .common import LEAN, SRC, add_failure, bump, new_outcome
 
 PROP = "C06"
-PROPS_FILES = ["CogentModel/Props/C06.lean"]
-LEAN_TARGETS = ["CogentModel.Props.C06"]
+PROPS_FILES = ["CogentModel/Props/C06.lean", "CogentModel/Props/C06Clustal.lean", "CogentModel/Props/C06Gen.lean"]
+LEAN_TARGETS = ["CogentModel.Props.C06", "CogentModel.Props.C06Clustal", "CogentModel.Props.C06Gen"]
 DRIVER = "drv_c06"
 TRUSTED = [
     "hand-written models lean/CogentModel/Model/Splitlines.lean (str.splitlines, util/io.iter_splitlines loop) and "
     "Model/SeqFormats.lean (seqs_to_fasta, GDE/PAML/PHYLIP formatters, _strict_parser, _faster_parser, "
-    "iter_fasta_records(bytes), PamlParser, MinimalPhylipParser), tied by behavioural correspondence each run",
+    "iter_fasta_records(bytes), PamlParser, MinimalPhylipParser) and Model/Clustal.lean (clustal_from_alignment, "
+    "is_clustal_seq_line, delete_trailing_number, last_space, LabelLineParser, ClustalParser), tied by behavioural "
+    "correspondence each run",
     "textwrap.wrap is an external: the FASTA theorems hold for ANY wrapping into non-empty lines; its contract "
     "(concatenation = input, no empty line, width respected) is checked on every generated sequence",
     "the chunks infile.read(chunk_size) returns are recorded from the real file object (a recording proxy around open_)",
+    "translator/c06_str2lean.py (ast only; closed fragment, anything else is a reported translation problem) and the str primitives "
+    "of Model/PyStr.lean it emits; conventions T1 (and/or -> truth value), T2 (s[0], l[-1] of an empty operand -> ''), T3 (int(tok) "
+    "succeeds iff pyIntOk tok) -- pyIntOk, is_clustal_seq_line, delete_trailing_number, last_space are also tied behaviourally",
 ]
 ASSUMPTIONS = [
     "JSON, gzip/bz2/zip, chardet and open_ are exercised by the real-code round trip, not modelled",
@@ -29,18 +34,24 @@ ASSUMPTIONS = [
 ]
 
 GEN_PATH = LEAN / "CogentModel" / "Gen" / "C06Dispatch.lean"
+GEN_STR_PATH = LEAN / "CogentModel" / "Gen" / "C06Str.lean"
 _gen_state = {}
 
 
 def generate(ctx):
-    """translator step: the compression dispatch tables of util/io.py -> Gen/C06Dispatch.lean (every run)"""
-    from translator import c06_dispatch2lean
+    """translator step (every run): the compression dispatch tables of util/io.py -> Gen/C06Dispatch.lean; the pure string
+    functions of parse/clustal.py and parse/phylip.py -> Gen/C06Str.lean (proved equal to the hand models in Props/C06Gen.lean)"""
+    from translator import c06_dispatch2lean, c06_str2lean
 
     table, suffixes, problems, changed = c06_dispatch2lean.generate(SRC, GEN_PATH)
     _gen_state.update(table=table, suffixes=suffixes)
     if changed:
         ctx.notes.append("Gen/C06Dispatch.lean was rewritten (dispatch tables in util/io.py changed or first run)")
-    return problems
+    problems = list(problems or [])
+    p2, changed2 = c06_str2lean.generate(SRC, GEN_STR_PATH)
+    if changed2:
+        ctx.notes.append("Gen/C06Str.lean was rewritten (is_clustal_seq_line / delete_trailing_number / is_blank / _split_line changed or first run)")
+    return problems + [f"c06_str2lean: {x}" for x in p2]
 
 
 PRINTABLE = [chr(i) for i in range(32, 127)]
@@ -390,6 +401,244 @@ def variants_once(scratch, stream, text, want=None):
 
 
 # --------------------------------------------------------------------------
+# well-formed PHYLIP that is not writer shaped (sequential with blank separated groups, interleaved)
+# --------------------------------------------------------------------------
+def gen_phylip_general(rng):
+    """(text, records, moltype, layout): a PHYLIP file as other programs write it.  Sequential: name column of 10, residues in
+    blank separated groups, continuation lines indented by >= 10 blanks; interleaved (header `n L I`): first block with names,
+    later blocks without, blank lines between blocks.  Header with free spacing, trailing blanks, LF/CRLF."""
+    mt = rng.choice(["dna", "rna", "protein"])
+    k = rng.randint(1, 4)
+    names = []
+    while len(names) < k:
+        n = gen_name(rng)[:10].strip()
+        if n and n not in names:
+            names.append(n)
+    L = rng.choice([1, 3, 9, 10, 11, 20, 37, 60, 61, 125])
+    seqs = [gen_seq(rng, mt, L, rng.random() < 0.5) for _ in names]
+    w = rng.choice([10, 20, 30, 50, 60])
+    grp = rng.choice([0, 10, 10, 5])
+
+    def groups(x):
+        return x if not grp else " ".join(x[i : i + grp] for i in range(0, len(x), grp))
+
+    layout = rng.choice(["sequential", "interleaved"])
+    head = rng.choice(["%d %d", " %d %d", "%d  %d", "   %d    %d", "%d\t%d"]) % (k, L)
+    lines = []
+    if layout == "interleaved":
+        lines.append(head + rng.choice([" I", " i", "  I "]))
+        for i in range(0, L, w):
+            for n, sq in zip(names, seqs):
+                lines.append(("%-10s" % n if i == 0 else rng.choice(["", "", " " * 10, "  "])) + groups(sq[i : i + w]) + rng.choice(["", " "]))
+            lines += [""] * rng.randint(0, 2)
+    else:
+        lines.append(head + rng.choice(["", " "]))
+        for n, sq in zip(names, seqs):
+            for i in range(0, L, w):
+                lines.append(("%-10s" % n if i == 0 else " " * rng.choice([10, 10, 11, 14])) + groups(sq[i : i + w]) + rng.choice(["", " "]))
+            lines += [""] * rng.choice([0, 0, 1])
+    eol = rng.choice(["\n", "\n", "\r\n"])
+    return eol.join(lines) + rng.choice([eol, eol, ""]), [[n, sq] for n, sq in zip(names, seqs)], mt, layout
+
+
+def phylip_variants(scratch, text, mt, tag="pg"):
+    from pathlib import Path
+
+    import cogent3
+    from cogent3.parse.phylip import MinimalPhylipParser
+    from cogent3.parse.sequence import PARSERS
+
+    p = Path(scratch) / f"{tag}.phylip"
+    p.write_bytes(text.encode("latin-1"))
+    lines = text.replace("\r\n", "\n").split("\n")
+    if lines and lines[-1] == "":
+        lines.pop()
+
+    def loaded():
+        a = cogent3.load_aligned_seqs(p, moltype=mt)
+        d = a.to_dict()
+        return [[str(n), str(d[n])] for n in a.names]
+
+    res = {
+        "MinimalPhylipParser(lines)": _exc(lambda: _recs(MinimalPhylipParser(lines))),
+        "PARSERS[phylip](path)": _exc(lambda: _recs(PARSERS["phylip"](p))),
+        "PARSERS[phylip](str path)": _exc(lambda: _recs(PARSERS["phylip"](str(p)))),
+        "load_aligned_seqs(path)": _exc(loaded),
+    }
+    p.unlink()
+    return res
+
+
+# --------------------------------------------------------------------------
+# Clustal (format/clustal.py, parse/clustal.py; Model/Clustal.lean, Spec/ClustalRecords.lean)
+# --------------------------------------------------------------------------
+CLUSTAL_WRAPS = [None, None, 1, 2, 3, 5, 7, 10, 59, 60, 61, 1000]
+
+
+def real_clustal_format(names, seqs, wrap):
+    from cogent3.format.clustal import clustal_from_alignment
+
+    return _exc(lambda: clustal_from_alignment(dict(zip(names, seqs)), wrap=wrap))
+
+
+def real_clustal_parse(lines, strict=True):
+    from cogent3.parse.clustal import ClustalParser
+
+    return _exc(lambda: _recs(ClustalParser(list(lines), strict=strict)))
+
+
+def _py_clustal_name(n):
+    """plain-Python reading of Spec.ClustalRecords.clustalName"""
+    return (bool(n) and all(32 <= ord(c) <= 126 for c in n) and " " not in n
+            and not n.startswith("CLUSTAL") and not n.startswith("MUSCLE"))
+
+
+def _py_clustal_seq(t):
+    return bool(t) and all(32 <= ord(c) <= 126 and c != " " and not ("0" <= c <= "9") for c in t)
+
+
+def gen_clustal_names(rng, k):
+    """distinct labels the format can carry (white-space delimited, not a header word)"""
+    names = []
+    for n in gen_names(rng, k):
+        n = n.replace(" ", "_")
+        if rng.random() < 0.08:
+            n = rng.choice(["CLUS", "CLUSTA", "clustal", "MUSCL", "xCLUSTAL", "M", "C"]) + n[:3]
+        if _py_clustal_name(n) and n not in names:
+            names.append(n)
+    return names or ["s1"]
+
+
+def _clustal_line_pool(rng):
+    """one line of the malformed Clustal stream"""
+    name = rng.choice(["a", "b", "seq1", "s_2", "x|y", "a", "b"]) if rng.random() < 0.6 else gen_name(rng, wf=rng.random() < 0.8)
+    seq = gen_seq(rng, rng.choice(["dna", "protein"]), rng.randint(1, 9), True)
+    sp = rng.choice([" ", "  ", "    ", "\t", " \t "])
+    r = rng.random()
+    if r < 0.40:
+        return name + sp + seq
+    if r < 0.52:
+        return name + sp + seq + rng.choice([" ", "\t"]) + rng.choice(["60", "7", "120", "+5", "-3", "1_0", "007", "0"])
+    if r < 0.58:
+        return name
+    if r < 0.63:
+        return name + sp + rng.choice(["60", "1_000", "12x", "_1", "1_", "1__0", "+", "-", "3.5"])
+    if r < 0.69:
+        return rng.choice(["CLUSTAL W (1.82) multiple sequence alignment", "CLUSTAL", "MUSCLE (3.41) multiple sequence alignment",
+                           "CLUSTALX", "clustal W", "MUSCL x", "CLUSTA" + sp + seq, "MUSCLE" + seq + sp + seq])
+    if r < 0.75:
+        return rng.choice(["", " ", "\t", "   ** *  :.", " " * 10 + "*" * 5, "\x0c" + seq, "\xa0" + name + sp + seq])
+    if r < 0.81:
+        return name + sp + seq + rng.choice([" ", "\t", "  \x0c", "\x1f"])
+    if r < 0.87:
+        return name + " " + rng.choice(["x", "b c", name]) + sp + seq
+    if r < 0.91:
+        return name + sp + seq[:2] + " " + seq[2:] + " " + seq
+    if r < 0.95:
+        return name + sp + seq.lower()
+    return rng.choice([" ", ""]) + name + sp + seq + " 12"
+
+
+def gen_clustal_general(rng):
+    """a well-formed Clustal / MUSCLE file that is NOT writer shaped: (text, records).  Header line variants, blank lines,
+    consensus lines (they start with white space: blanks or tabs), labels padded with blanks and/or tabs, an optional running residue count at
+    the end of every sequence line (-LINENOS=ON), trailing blanks, LF or CRLF, optional final newline."""
+    mt = rng.choice(["dna", "rna", "protein"])
+    names = gen_clustal_names(rng, rng.randint(1, 4))
+    L = rng.choice([1, 2, 3, 7, 12, 59, 60, 61, 125])
+    seqs = [gen_seq(rng, mt, L, rng.random() < 0.6) for _ in names]
+    w = rng.choice([1, 3, 5, 10, 50, 60, 60])
+    linenos = rng.random() < 0.4
+    width = max(len(n) for n in names) + rng.randint(1, 6)
+    eol = rng.choice(["\n", "\n", "\r\n"])
+    lines = [rng.choice(["CLUSTAL W (1.82) multiple sequence alignment", "CLUSTAL", "CLUSTAL O(1.2.4) multiple sequence alignment",
+                         "MUSCLE (3.8) multiple sequence alignment", "CLUSTALW"])]
+    lines += [""] * rng.randint(0, 3)
+    for i in range(0, L, w):
+        for n, sq in zip(names, seqs):
+            pad = " " * (width - len(n)) if rng.random() < 0.8 else rng.choice(["\t", " \t", "\t\t "])
+            line = n + pad + sq[i : i + w]
+            if linenos:
+                line += rng.choice([" ", "  ", "\t"]) + str(min(i + w, L))
+            lines.append(line + rng.choice(["", "", " ", "  "]))
+        if rng.random() < 0.7:
+            indent = " " * width if rng.random() < 0.7 else rng.choice(["\t", "\t\t", " \t", "\t "])  # any white space leads a non-sequence line
+            lines.append(indent + "".join(rng.choice("*:. ") for _ in range(min(w, L - i))))
+        lines += [""] * rng.randint(0 if i + w >= L else 1, 2)
+    text = eol.join(lines) + rng.choice([eol, eol, ""])
+    return text, [[n, s] for n, s in zip(names, seqs)], mt
+
+
+def clustal_variants(scratch, text, mt="dna", tag="cv"):
+    """every way the library parses a Clustal file"""
+    from pathlib import Path
+
+    import cogent3
+    from cogent3.parse.clustal import ClustalParser
+    from cogent3.parse.sequence import PARSERS
+
+    p = Path(scratch) / f"{tag}.aln"
+    p.write_bytes(text.encode("latin-1"))
+    lines = text.replace("\r\n", "\n").split("\n")
+    if lines and lines[-1] == "":
+        lines.pop()
+
+    def loaded(**kw):
+        a = cogent3.load_aligned_seqs(p, **kw)
+        d = a.to_dict()
+        return [[str(n), str(d[n])] for n in a.names]
+
+    res = {
+        "ClustalParser(lines,strict)": _exc(lambda: _recs(ClustalParser(lines, strict=True))),
+        "ClustalParser(lines,non-strict)": _exc(lambda: _recs(ClustalParser(lines, strict=False))),
+        "PARSERS[aln](path)": _exc(lambda: _recs(PARSERS["aln"](p))),
+        "PARSERS[clustal](str path)": _exc(lambda: _recs(PARSERS["clustal"](str(p)))),
+        "load_aligned_seqs(path)": _exc(lambda: loaded(moltype=mt)),
+        "load_aligned_seqs(path,format=clustal)": _exc(lambda: loaded(moltype=mt, format="clustal")),
+    }
+    p.unlink()
+    return res
+
+
+def clustal_once(scratch, names, seqs, wrap, mt, sfx="aln", chunk_size=None):
+    """clustal_from_alignment(dict, wrap) -> file -> load_aligned_seqs / streamed registry parser; None if the property holds.
+    The writer sorts the keys of a dict: expected order = sorted(names)."""
+    from pathlib import Path
+
+    import cogent3
+    from cogent3.format.clustal import clustal_from_alignment
+
+    want = [[n, s] for n, s in sorted(zip(names, seqs))]
+    p = Path(scratch) / f"c.{sfx}"
+    stage = "write"
+    try:
+        p.write_text(clustal_from_alignment(dict(zip(names, seqs)), wrap=wrap))
+        stage = "load"
+        if chunk_size is None:
+            back = cogent3.load_aligned_seqs(p, moltype=mt, format=None if sfx in ("aln", "clustal") else "clustal")
+            d = back.to_dict()
+            got = [[str(n), str(d[n])] for n in back.names]
+        else:
+            got, _ = real_streamed("aln", p, chunk_size)
+    except Exception as e:  # noqa: BLE001
+        got = {"err": type(e).__name__, "stage": stage, "msg": str(e)[:120]}
+    finally:
+        try:
+            p.unlink()
+        except OSError:
+            pass
+    if got == want:
+        return None
+    if isinstance(got, dict):
+        cls = f"exc:{got.get('stage', 'load')}:{got['err']}"
+    elif [g[0] for g in got] != [w[0] for w in want]:
+        cls = "names"
+    else:
+        cls = "seqs"
+    return f"roundtrip:clustal:{cls}", want, got
+
+
+# --------------------------------------------------------------------------
 # correspondence: Lean model vs real implementation
 # --------------------------------------------------------------------------
 def _cmp(out, what, inp, model, real, ntkey=None):
@@ -637,6 +886,13 @@ def correspondence(ctx):
         add("paml", {"lines": ls}, real_paml(ls), "paml parser (malformed stream)")
         add("phylip", {"lines": ls}, real_phylip(ls), "phylip parser (malformed stream)")
     add("paml", {"lines": []}, real_paml([]), "paml parser (malformed stream)")
+    for _ in range(ctx.budget(200, 2000)):
+        t, _, _, layout = gen_phylip_general(rng)
+        ls = t.splitlines()
+        if rng.random() < 0.2 and len(ls) > 2:  # break it: drop a line / cut a line (length mismatch, missing block)
+            k = rng.randrange(1, len(ls))
+            ls = ls[:k] + ([ls[k][: rng.randint(0, len(ls[k]))]] if rng.random() < 0.5 else []) + ls[k + 1 :]
+        add("phylip", {"lines": ls}, real_phylip(ls), f"phylip parser (general {layout} file)")
     for (what, arg), real, m in zip(pmeta, preal, drv.batch(preq)):
         if isinstance(real, dict) and real["err"] not in ERRS:
             bump(out, "unmodelled_exception", real["err"])
@@ -785,6 +1041,90 @@ def correspondence(ctx):
     for (cmd, arg), real, m in zip(greq2, greal2, drv.batch(greq2)):
         _cmp(out, "GenBank record frame: model differs from iter_genbank_records", arg, m, real, ("gbr", arg["text"]) if real else None)
         bump(out, "gb_records", real["err"] if isinstance(real, dict) else len(real))
+
+    # ---- 10. Clustal: writer, parser (strict / non-strict), line level pieces, spec predicates ---------------
+    creq, creal, cmeta = [], [], []
+    clustal_texts = []
+    for i in range(ctx.budget(220, 2200)):
+        r = rng.random()
+        mt, names, seqs = gen_recset(rng, ragged=r < 0.1, distinct_trunc=False, small=rng.random() < 0.6)
+        if r > 0.85:
+            names = gen_names(rng, len(names), wf=False)
+            seqs = seqs[: len(names)]
+        elif r > 0.3:
+            names = gen_clustal_names(rng, len(names))
+            seqs = seqs[: len(names)]
+        if i == 0:
+            names, seqs = [], []
+        wrap = rng.choice(CLUSTAL_WRAPS)
+        order = sorted(zip(names, seqs))
+        real = real_clustal_format(names, seqs, wrap)
+        creq.append(("clustal_format", {"recs": [[n, s] for n, s in order], "wrap": wrap}))
+        creal.append(real)
+        cmeta.append(("Clustal writer", dict(names=names, seqs=seqs, wrap=wrap)))
+        bump(out, "clustal_wrap", str(wrap))
+        if isinstance(real, str):
+            clustal_texts.append(real)
+    for t in clustal_texts:
+        for strict in (True, False):
+            ls = t.splitlines()
+            creq.append(("clustal_parse", {"lines": ls, "strict": strict}))
+            creal.append(real_clustal_parse(ls, strict))
+            cmeta.append((f"Clustal parser strict={strict} (writer output)", dict(lines=ls, strict=strict)))
+    for _ in range(ctx.budget(2500, 25000)):
+        ls = [_clustal_line_pool(rng) for _ in range(rng.randint(1, 9))]
+        strict = rng.random() < 0.5
+        creq.append(("clustal_parse", {"lines": ls, "strict": strict}))
+        creal.append(real_clustal_parse(ls, strict))
+        cmeta.append((f"Clustal parser strict={strict} (malformed stream)", dict(lines=ls, strict=strict)))
+    from cogent3.parse import clustal as _cl
+
+    for _ in range(ctx.budget(1200, 12000)):
+        l = _clustal_line_pool(rng)
+        if not l.split():
+            l = "x" + l  # delete_trailing_number("") is an IndexError: unreachable behind the filter
+        creq.append(("clustal_line", {"line": l}))
+        creal.append(dict(is_seq_line=bool(_cl.is_clustal_seq_line(l)), delete_trailing_number=_cl.delete_trailing_number(l),
+                          last_space=list(_cl.last_space(l.rstrip()))))
+        cmeta.append(("Clustal line level pieces", dict(line=l)))
+    for _ in range(ctx.budget(500, 5000)):
+        r = rng.random()
+        if r < 0.4:
+            t = gen_clustal_names(rng, 1)[0]
+            if not _py_clustal_name(t):
+                add_failure(out, "corr", "generator produced a Clustal label outside the theorems' domain", {"s": t}, True, False, confirmed=False)
+        elif r < 0.7:
+            t = gen_seq(rng, rng.choice(["dna", "rna", "protein"]), rng.randint(1, 12), rng.random() < 0.5)
+            if not _py_clustal_seq(t):
+                add_failure(out, "corr", "generator produced residues outside the theorems' domain", {"s": t}, True, False, confirmed=False)
+        else:
+            t = rng.choice(["CLUSTAL", "MUSCLEx", "CLUSTA", "a b", "", " a", "a1", "12", "A-C", "A C", "\x7f", "MUSCL", "clustal"]) + rng.choice(["", "x", "9"])
+        creq.append(("clustal_spec", {"s": t}))
+        creal.append(dict(clustalName=_py_clustal_name(t), clustalSeq=_py_clustal_seq(t)))
+        cmeta.append(("Spec/ClustalRecords predicate", dict(s=t)))
+    for (what, arg), real, m in zip(cmeta, creal, drv.batch(creq)):
+        _cmp(out, what + ": model differs", arg, m, real, ("cl", what, str(arg)) if real else None)
+        bump(out, "clustal", what)
+        if what.startswith("Clustal parser"):
+            bump(out, "clustal_parser_result", real["err"] if isinstance(real, dict) else ("records" if real else "empty"))
+    # parser o iter_splitlines as one composition (the registry's LineBasedParser(ClustalParser)), small chunk sizes
+    creq2, creal2, cmeta2 = [], [], []
+    for i, t in enumerate(clustal_texts[: ctx.budget(12, 120)]):
+        if not t:
+            continue
+        if i % 4 == 3:
+            t = t.replace("\n", "\r\n")
+        p = d / f"cl{i}.aln"
+        p.write_bytes(t.encode("latin-1"))
+        for cs in _chunk_sizes(len(t), rng, 8):
+            real, chunks = real_streamed("aln", p, cs)
+            creq2.append(("streamed", {"parser": "aln", "chunks": chunks}))
+            creal2.append(real)
+            cmeta2.append((t, cs))
+    for (t, cs), real, m in zip(cmeta2, creal2, drv.batch(creq2)):
+        _cmp(out, "streamed composition ClustalParser o iter_splitlines: model differs", dict(parser="aln", text=t, chunk_size=cs),
+             m, real, ("st", "aln", t, cs) if real else None)
+        bump(out, "streamed_parser", "aln")
 
     # ---- 6. the specification predicates (Spec/SeqRecords.lean) --------------------
     # the hypotheses of the round-trip theorems (wfName / wfSeq / noLower) and the PHYLIP truncation (truncName) against
@@ -1284,6 +1624,26 @@ def spec_check(ctx, budget):
         for sig, w, got, which in variants_once(scratch, "general", text, want):
             _spec_fail(out, f"FASTA parser variant {which} differs on a well-formed (not writer shaped) text ({sig})",
                        dict(check="variants", stream="general", text=text, want=want, variant=which), w, got, sig)
+    # ---- B4. well-formed PHYLIP that is not writer shaped (blank separated groups, interleaved): every variant returns the records
+    for i in range(40 * budget):
+        text, want, mt, layout = gen_phylip_general(rng)
+        out["evaluations"] += 1
+        out["nontrivial"].add(("phylip_general", text))
+        bump(out, "phylip_general", layout + ("/crlf" if "\r\n" in text else "/lf"))
+        for which, got in phylip_variants(scratch, text, mt).items():
+            if got != want:
+                _spec_fail(out, f"PHYLIP parser variant {which} differs on a well-formed {layout} file",
+                           dict(check="phylip_general", text=text, want=want, moltype=mt, variant=which), want, got,
+                           f"agree:phylip:{layout}:{which}")
+        if i % 6 == 0:
+            p = scratch / "pg.phylip"
+            p.write_bytes(text.encode("latin-1"))
+            for cs in _chunk_sizes(min(len(text), 80), rng, 6):
+                got, _ = real_streamed("phylip", p, cs)
+                out["evaluations"] += 1
+                if got != want:
+                    _spec_fail(out, f"MinimalPhylipParser(iter_splitlines(path, chunk_size={cs})) differs on a well-formed {layout} file",
+                               dict(check="streamed", parser="phylip", fmt="phylip", text=text, chunk_size=cs, want=want), want, got, "streamed:phylip")
     # ---- B3. the shapes on which the parsers of the library disagree (outside wfFile): tracked as findings ----
     for i in range(5 * budget):
         recs = gen_general(rng, lower_ok=False)
@@ -1375,30 +1735,43 @@ def spec_check(ctx, budget):
             if res:
                 _spec_fail(out, "GenBank feature coordinates: minimal_parser / rich_parser / the spans written differ",
                            dict(check="genbank_features", text=ftext, want=feats), res[1], res[2], res[0])
-    # ---- E. Clustal writer / parser pair (exercised only; the writer is not registered in FORMATTERS) ------------
-    from cogent3 import load_aligned_seqs
-    from cogent3.format.clustal import clustal_from_alignment
-
-    for i in range(8 * budget):
-        mt, names, seqs = gen_recset(rng, ragged=False, distinct_trunc=False, small=i % 2 == 0)
-        names = [n.replace(" ", "_") for n in names]  # a Clustal label is whitespace delimited
-        if len(set(names)) != len(names):
-            continue
-        data = dict(zip(names, seqs))
-        wrap = rng.choice([None, 10, 59, 60, 61])
-        p = scratch / "c.aln"
-        got = None
-        try:
-            p.write_text(clustal_from_alignment(data, wrap=wrap))
-            back = load_aligned_seqs(p, moltype=mt)
-            got = back.to_dict()
-        except Exception as e:  # noqa: BLE001
-            got = {"err": type(e).__name__, "msg": str(e)[:120]}
+    # ---- E. Clustal: writer -> file -> loader / streamed registry parser; every wrap width (Model/Clustal.lean) ------
+    for i in range(14 * budget):
+        mt, _, seqs = gen_recset(rng, ragged=False, distinct_trunc=False, small=i % 2 == 0)
+        names = gen_clustal_names(rng, len(seqs))
+        seqs = seqs[: len(names)]
+        L = len(seqs[0])
+        wrap = rng.choice(CLUSTAL_WRAPS + [L, L + 1, max(1, L - 1)])
+        sfx = rng.choice(["aln", "aln", "clustal", "txt", "fasta"])
+        css = [None] + (_chunk_sizes(60, rng, 5) if i % 3 == 0 else [])
+        for cs in css:
+            res = clustal_once(scratch, names, seqs, wrap, mt, sfx, cs)
+            out["evaluations"] += 1
+            out["nontrivial"].add(("clustal", tuple(names), tuple(seqs), wrap, sfx, cs))
+            bump(out, "clustal_wrap", str(wrap))
+            if res:
+                _spec_fail(out, f"Clustal writer / parser round trip differs ({res[0]})",
+                           dict(check="clustal", names=names, seqs=seqs, wrap=wrap, moltype=mt, suffix=sfx, chunk_size=cs),
+                           res[1], res[2], res[0])
+    # ---- E2. well-formed Clustal / MUSCLE files that are not writer shaped: every way of parsing returns the records ----
+    for i in range(30 * budget):
+        text, want, mt = gen_clustal_general(rng)
         out["evaluations"] += 1
-        bump(out, "clustal_wrap", str(wrap))
-        if got != data:
-            _spec_fail(out, "Clustal writer / parser round trip differs", dict(check="clustal", names=names, seqs=seqs, wrap=wrap, moltype=mt),
-                       data, got, "roundtrip:clustal")
+        out["nontrivial"].add(("clustal_general", text))
+        bump(out, "clustal_general", ("linenos" if want and text.rstrip()[-1:].isdigit() else "plain") + ("/crlf" if "\r\n" in text else "/lf"))
+        for which, got in clustal_variants(scratch, text, mt).items():
+            if got != want:
+                _spec_fail(out, f"Clustal parser variant {which} differs on a well-formed file",
+                           dict(check="clustal_general", text=text, want=want, moltype=mt, variant=which), want, got, f"agree:clustal:{which}")
+        if i % 5 == 0:
+            p = scratch / "cg.aln"
+            p.write_bytes(text.encode("latin-1"))
+            for cs in _chunk_sizes(min(len(text), 80), rng, 6):
+                got, _ = real_streamed("aln", p, cs)
+                out["evaluations"] += 1
+                if got != want:
+                    _spec_fail(out, f"ClustalParser(iter_splitlines(path, chunk_size={cs})) differs on a well-formed file",
+                               dict(check="streamed", parser="aln", fmt="aln", text=text, chunk_size=cs, want=want), want, got, "streamed:aln")
     out.pop("_per_sig", None)
     return out
 
@@ -1452,6 +1825,21 @@ def _rerun(ctx, inp):
         got, _ = real_streamed(inp["parser"], p, inp["chunk_size"])
         if got != inp["want"]:
             add_failure(out, "spec", f"{inp['parser']}(iter_splitlines(path, chunk_size)) differs", inp, inp["want"], got, sig=f"streamed:{inp['parser']}")
+    elif chk == "clustal":
+        res = clustal_once(scratch, inp["names"], inp["seqs"], inp["wrap"], inp["moltype"], inp.get("suffix", "aln"), inp.get("chunk_size"))
+        if res:
+            add_failure(out, "spec", f"Clustal writer / parser round trip differs ({res[0]})", inp, res[1], res[2], sig=res[0])
+    elif chk == "phylip_general":
+        for which, got in phylip_variants(scratch, inp["text"], inp.get("moltype", "dna"), tag="rp").items():
+            if got != inp["want"] and inp.get("variant") in (None, which):
+                layout = "interleaved" if len(inp["text"].splitlines()[0].split()) > 2 else "sequential"
+                add_failure(out, "spec", f"PHYLIP parser variant {which} differs on a well-formed file", dict(inp, variant=which),
+                            inp["want"], got, sig=f"agree:phylip:{layout}:{which}")
+    elif chk == "clustal_general":
+        for which, got in clustal_variants(scratch, inp["text"], inp.get("moltype", "dna"), tag="rp").items():
+            if got != inp["want"] and inp.get("variant") in (None, which):
+                add_failure(out, "spec", f"Clustal parser variant {which} differs on a well-formed file", dict(inp, variant=which),
+                            inp["want"], got, sig=f"agree:clustal:{which}")
     elif chk == "genbank_features":
         res = genbank_features_once(scratch, inp["text"], inp["want"])
         if res:
